@@ -26,14 +26,14 @@ PROFILES = {
     'quick': [
         {'name': 'd2-all', 'leaves': 'f5', 'consts': False, 'ops': 'all', 'depth': 2},
         {'name': 'd2-mixed', 'leaves': 'mixed', 'consts': True, 'ops': 'all', 'depth': 1},
-        {'name': 'd3-core', 'leaves': 'sq', 'consts': False, 'ops': 'core', 'depth': 3, 'binary': True},
+        {'name': 'd3-core', 'leaves': 'aA', 'consts': False, 'ops': 'core', 'depth': 3, 'binary': True},
     ],
     'thorough': [
         {'name': 'd2-all', 'leaves': 'all', 'consts': True, 'ops': 'all', 'depth': 2},
-        {'name': 'd3-core', 'leaves': 'sq3', 'consts': False, 'ops': 'core', 'depth': 3},
+        {'name': 'd3-core', 'leaves': 'sq', 'consts': False, 'ops': 'core', 'depth': 3},
     ],
 }
-NPARTS = {'quick': {1: 1, 2: 24, 3: 400}, 'thorough': {1: 2, 2: 200, 3: 2000}}
+NPARTS = {'quick': {1: 1, 2: 24, 3: 240}, 'thorough': {1: 2, 2: 200, 3: 1500}}
 
 
 LOOP_CHUNK = 150
